@@ -82,12 +82,13 @@ impl RxCtrState {
         // in either direction. Encrypted only allows in forward direction
         else if is_forward {
             self.max_ctr = msg_ctr;
-            if udiff < MSG_RX_STATE_BITMAP_LEN {
+            if udiff <= MSG_RX_STATE_BITMAP_LEN {
                 // The previous max_ctr is now the actual counter
-                self.ctr_bitmap <<= udiff;
+                self.ctr_bitmap = self.ctr_bitmap.checked_shl(udiff).unwrap_or(0);
                 self.insert(udiff - 1);
             } else {
-                self.ctr_bitmap = 0xffff;
+                // None of the counters in the new window was received yet
+                self.ctr_bitmap = 0;
             }
             true
         } else if !is_encrypted {
